@@ -319,7 +319,10 @@ class Gen:
         if ill and self.chance(0.12) and nodes:
             i = rng.randrange(len(nodes))
             n = nodes[i]
-            pm = rm.describe_node(i, n) if isinstance(n.get("processor"), str) else None
+            try:
+                pm = rm.describe_node(i, n) if isinstance(n.get("processor"), str) else None
+            except rm.ConfigRejected:
+                pm = None
             if pm is not None and pm.sweep is None and pm.shorthand is None:
                 if pm.role == "probe" and self.chance(0.5):
                     n.pop("context_key", None)
